@@ -1,8 +1,27 @@
 import ZarrsModel.Model.WriteMap
+import ZarrsModel.Model.WriteMapShard
 import ZarrsModel.Driver.C01
-/- driver handler for C17: value as in C01 + verdict on every recorded write map -/
+/- driver handler for C17: value as in C01 + verdict on every recorded write map.
+
+Every published buffer is judged by `tiles` (C17.tiles_iff).  In addition the recorded maps are compared with the maps
+the model predicts:
+* unsharded arrays, `retrieve_array_subset`: the last buffer against `ArrCfg.writeMap` (as before);
+* sharded arrays (the chain description of the `cfg` line parses to a `WChain` whose array-to-bytes codec is
+  `sharding_indexed`, any nesting depth, transposes and squeeze at any level), requests `retrieve_chunk`,
+  `retrieve_array_subset`, `sharded_subset`, `inner_chunk`, `inner_chunks`, `pd`: ALL buffers published during the request
+  against the predicted list (Model/WriteMapShard.lean: `decodePubs`, `decodeIntoPubs`, `pdPubs`, `shardedReadMap`,
+  `shardedSubsetMap`), as multisets of `(length, sorted non-empty ranges)`; neither the order of the writes inside a
+  buffer nor the order of the publishes (task order) is compared.
+
+Granularity.  Every leaf view issues one write per contiguous run of its subset in the buffer's shape
+(`contiguous_linearised_indices`), for `copy_from_slice` and `fill` alike, so the ranges of a buffer are decided by its
+leaf views, and those by the chain and by WHICH chunks / inner chunks are stored (a missing shard is one `fill` of the
+shard's view, a stored one is written inner chunk by inner chunk through `decode_into`).  The driver knows the store
+(the model store of C01; an inner chunk is stored iff it is not all fill, `ShardingCodec::encode`), so the run
+granularity is stable and is what is compared.  Ranges are NOT merged: merging adjacent ranges would turn every complete
+map into the single range `(0, len)` and the comparison into the `tiles` verdict again. -/
 namespace Zarrs.DriverC17
-open Zarrs Zarrs.Proto
+open Zarrs Zarrs.Proto Zarrs.Partial
 
 def parseRange (s : String) : Option (Nat × Nat) :=
   match s.splitOn ":" with
@@ -22,26 +41,182 @@ def parseMap (s : String) : Option (Nat × List (Nat × Nat)) :=
 def sameRanges (a b : List (Nat × Nat)) : Bool :=
   sortRanges (a.filter (·.2 != 0)) == sortRanges (b.filter (·.2 != 0))
 
+/-! ### the chain description of the `cfg` line (harness/src/arr.rs `gen_chain`) -/
+
+/-- split at `sep` outside brackets -/
+def splitTop (sep : Char) (s : String) : List String :=
+  let (parts, cur, _) := s.toList.foldl (fun (acc : List String × List Char × Nat) ch =>
+    let (parts, cur, depth) := acc
+    if ch == '[' then (parts, ch :: cur, depth + 1)
+    else if ch == ']' then (parts, ch :: cur, depth - 1)
+    else if ch == sep && depth == 0 then (String.ofList cur.reverse :: parts, [], depth)
+    else (parts, ch :: cur, depth)) ([], [], 0)
+  (String.ofList cur.reverse :: parts).reverse
+
+def parseA2A (tok : String) : Option AStage :=
+  if tok == "squeeze" then some .squeeze
+  else if tok.startsWith "transpose" then
+    ((tok.drop 9).toString.toList.mapM (fun (c : Char) => if c.isDigit then some (c.toNat - 48) else none)).map AStage.transpose
+  else none
+
+/-- `transpose10|shard[2x2;end;le;bytes-little|gzip]|crc32c` → `WChain` (bytes-to-bytes codecs and the kind of a
+non-sharding array-to-bytes codec do not matter for views) -/
+def parseChain : Nat → String → Option WChain
+  | 0, _ => none
+  | fuel + 1, s =>
+    let toks := splitTop '|' s
+    let a2a := (toks.takeWhile (fun t => (parseA2A t).isSome)).filterMap parseA2A
+    match toks.dropWhile (fun t => (parseA2A t).isSome) with
+    | [] => none
+    | t :: _ =>
+      if t.startsWith "shard[" then
+        let body := ((t.drop 6).toString.dropEnd 1).toString
+        match splitTop ';' body with
+        | [ish, _, _, sub] => do
+          let inner ← (ish.splitOn "x").mapM (·.toNat?)
+          let subc ← parseChain fuel sub
+          pure (.shard a2a inner subc)
+        | _ => none
+      else some (.leaf a2a)
+
+/-! ### predicted publishes -/
+
+structure Ctx where
+  cfg : ArrCfg DriverC01.Elem
+  kv : KV
+  es : Nat
+  chain : WChain
+
+/-- presence of chunk `c` (`none`: the model cannot read the chunk) -/
+def Ctx.pres (x : Ctx) (c : Idx) : Option (Shape × Presence) := do
+  let sh ← x.cfg.chunkShape c
+  let data ← x.cfg.retrieveChunkIfExists x.kv c
+  pure (sh, x.chain.presence x.cfg.storeEmpty x.cfg.fill sh data)
+
+/-- `retrieve_chunk_opt` -/
+def Ctx.chunkPubs (x : Ctx) (c : Idx) : Option (List Pub) := do
+  let (sh, p) ← x.pres c
+  x.chain.decodePubs x.es sh p
+
+/-- `retrieve_chunk_subset_opt(c, q)` -/
+def Ctx.chunkSubsetPubs (x : Ctx) (c : Idx) (q : Subset) : Option (List Pub) := do
+  let (sh, p) ← x.pres c
+  if !q.inboundsShape sh then none
+  else if q.start.all (· == 0) && q.shape == sh then x.chain.decodePubs x.es sh p
+  else x.chain.pdPubs x.es sh p q
+
+/-- `retrieve_array_subset_opt(r)` -/
+def Ctx.subsetPubs (x : Ctx) (r : Subset) : Option (List Pub) := do
+  if r.rank != x.cfg.shape.length then none else
+  let box ← x.cfg.grid.chunksInArraySubset r x.cfg.shape
+  match box.numElements with
+  | 0 => pure []
+  | 1 =>
+    let cs ← x.cfg.chunkSubset box.start
+    if cs == r then x.chunkPubs box.start else x.chunkSubsetPubs box.start (r.relativeTo cs.start)
+  | _ =>
+    if r.numElements * x.es == 0 then pure [] else
+    let inner ← flatOpt (box.indices.map (fun c => do
+      let cs ← x.cfg.grid.subset c
+      let (sh, p) ← x.pres c
+      let q := (cs.overlap r).relativeTo cs.start
+      if !q.inboundsShape sh then none
+      else if q.start.all (· == 0) && q.shape == sh then x.chain.decodeIntoPubs x.es sh p
+      else x.chain.pdPubs x.es sh p q))
+    let trees : List (Idx × IntoTree) ← box.indices.mapM (fun c => do
+      let (_, p) ← x.pres c
+      pure (c, x.chain.intoTree p))
+    let tree : Idx → IntoTree := fun c => ((trees.find? (·.1 == c)).map (·.2)).getD .fill
+    let m ← x.cfg.shardedReadMap tree r x.es
+    pure (inner ++ [(r.numElements * x.es, m)])
+
+/-- `retrieve_array_subset_sharded_opt(r)` on a sharded array -/
+def Ctx.shardedSubsetPubs (x : Ctx) (r : Subset) : Option (List Pub) := do
+  let box ← x.cfg.grid.chunksInArraySubset r x.cfg.shape
+  if box.numElements == 0 then pure [] else
+  if r.numElements * x.es == 0 then pure [] else
+  let inner ← flatOpt (box.indices.map (fun c => do
+    let cs ← x.cfg.grid.subset c
+    let (sh, p) ← x.pres c
+    x.chain.pdPubs x.es sh p ((cs.overlap r).relativeTo cs.start)))
+  let m ← x.cfg.shardedSubsetMap r x.es
+  pure (inner ++ [(r.numElements * x.es, m)])
+
+def isSharded : WChain → Bool
+  | .shard .. => true
+  | .leaf _ => false
+
+/-- the buffers the request publishes (`none`: not a request with a prediction, or the model has none) -/
+def Ctx.expect (x : Ctx) (verb : String) (l : Line) : Option (List Pub) := do
+  match verb with
+  | "retrieve_chunk" => x.chunkPubs (← l.nl "c")
+  | "retrieve_array_subset" => x.subsetPubs (← DriverC01.parseSubset (← l.get "r"))
+  | "sharded_subset" => x.shardedSubsetPubs (← DriverC01.parseSubset (← l.get "r"))
+  | "inner_chunk" =>
+    let ic ← l.nl "ic"; let ish ← l.nl "ishape"
+    let r : Subset := ⟨zipMul ic ish, ish⟩
+    let c ← x.cfg.grid.chunkIndices r.start
+    let cs ← x.cfg.chunkSubset c
+    let (sh, p) ← x.pres c
+    x.chain.pdPubs x.es sh p (r.relativeTo cs.start)
+  | "inner_chunks" =>
+    let ib ← DriverC01.parseSubset (← l.get "ibox"); let ish ← l.nl "ishape"
+    let r : Subset := ⟨zipMul ib.start ish, zipMul ib.shape ish⟩
+    if r.isEmpty then pure [] else x.shardedSubsetPubs r
+  | "pd" =>
+    let c ← l.nl "c"
+    let rs ← ((← l.get "rs").splitOn "|").mapM DriverC01.parseSubset
+    let (sh, p) ← x.pres c
+    flatOpt (rs.map (fun r => x.chain.pdPubs x.es sh p r))
+  | _ => none
+
+def canon (p : Pub) : Pub := (p.1, sortRanges (p.2.filter (·.2 != 0)))
+
+/-- multiset equality of canonical publishes -/
+def samePubs (a b : List Pub) : Bool :=
+  let ca := a.map canon
+  let cb := b.map canon
+  ca.length == cb.length && (ca.foldl (fun (rest : Option (List Pub)) p =>
+    match rest with
+    | none => none
+    | some r => if r.contains p then some (r.erase p) else none) (some cb)).isSome
+
+def showPub (p : Pub) : String :=
+  toString p.1 ++ "@" ++ ",".intercalate (p.2.map (fun r => toString r.1 ++ ":" ++ toString r.2))
+
 def handle (st : DriverC01.St) (l : Line) : Option (DriverC01.St × List String × Option String) := do
   match l.outcome.splitOn " wmaps=" with
   | [val, wm] =>
     let (st', acc, note) ← DriverC01.handle st { l with outcome := val }
-    if wm == "-" then pure (st', acc.map (· ++ " wmaps=-"), note) else
-    let ms ← (wm.splitOn ";").mapM parseMap
+    let ms ← if wm == "-" then pure [] else (wm.splitOn ";").mapM parseMap
     let bad := ms.filter (fun m => !tiles m.1 m.2)
     if !bad.isEmpty then
       pure (st', ["every published buffer must be tiled by the recorded writes; untiled buffer of length " ++ toString (bad.head!.1)], note)
     else
+      let sharded := (st.chain.splitOn "shard").length > 1
       -- on the plain (unsharded) multi-chunk path the map must be the predicted one
       let note2 := match st.cfg, l.verbs[2]?, (l.get "r").bind DriverC01.parseSubset with
         | some cfg, some "retrieve_array_subset", some r =>
-          if st.es == 0 || (st.chain.splitOn "shard").length > 1 then none else
+          if st.es == 0 || sharded then none else
           match cfg.writeMap r st.es, ms.getLast? with
           | some pm, some m =>
             if m.1 == r.numElements * st.es && !sameRanges pm m.2 && m.2.length > 1 then some "write map differs from the predicted map" else none
           | _, _ => none
         | _, _, _ => none
-      pure (st', acc.map (· ++ " wmaps=" ++ wm), note.orElse (fun _ => note2))
+      -- sharded arrays: every buffer published during the request against the model's list
+      let note3 := match st.cfg, l.verbs[2]?, parseChain 8 st.chain with
+        | some cfg, some verb, some chain =>
+          if st.es == 0 || !isSharded chain || !val.startsWith "val" then none else
+          let x : Ctx := { cfg := cfg, kv := st.st, es := st.es, chain := chain }
+          match x.expect verb l with
+          | none =>
+            if ["retrieve_chunk", "retrieve_array_subset", "sharded_subset", "inner_chunk", "inner_chunks", "pd"].contains verb
+            then some "no predicted write maps for a request the implementation answered" else none
+          | some pubs =>
+            if samePubs pubs ms then none
+            else some ("published write maps differ from the predicted ones: model=" ++ ";".intercalate ((pubs.map canon).map showPub))
+        | _, _, _ => none
+      pure (st', acc.map (· ++ " wmaps=" ++ wm), (note.orElse (fun _ => note2)).orElse (fun _ => note3))
   | _ =>
     let (st', acc, note) ← DriverC01.handle st l
     pure (st', acc, note)
